@@ -99,7 +99,16 @@ BlobCases ==
      accts |-> << Contract(C1, 0, <<74, 80, 0>>, StorOf(0)), [SenderAcct EXCEPT !.bal = sb] >>]
     : f \in Forks, n \in {0, 1, 6, 7}, v \in {1, 2}, bf \in {0, 1, 3}, g \in {21000, 30000}, sb \in {2000000, 50000000} }
 
-Cases == CASE Family = "auth" -> AuthCases [] Family = "blob" -> BlobCases [] Family = "sstore" -> SStoreCases [] Family = "seq" -> SeqCases [] Family = "call" -> CallCases [] OTHER -> TxCases
+(* --- family "floor": EIP-7623 against EIP-3529: calldata-heavy calls into a contract that     *)
+(* clears pre-set slots, so that the calldata floor lands below, between and above the gas used  *)
+(* before and after the refund (the floor applies to the gas used AFTER the refund)               *)
+FloorCases ==
+  { [tx |-> [BaseTx EXCEPT !.fork = f, !.gas = 200000, !.data = [i \in 1..n |-> IF i <= nz THEN 1 ELSE 0],
+                           !.dataw = [i \in 1..Words(n) |-> UNK]],
+     accts |-> << Contract(C1, 0, Cat([i \in 1..k |-> <<95>> \o P(i - 1) \o <<85>>]) \o <<0>>, << <<0, 1>>, <<1, 2>>, <<2, 1>> >>), SenderAcct >>]
+    : f \in Forks, k \in 0..3, n \in {0, 96, 192, 288, 384, 480, 576, 800}, nz \in {0, 96, 192, 288, 384, 480, 576, 800} }
+
+Cases == CASE Family = "floor" -> FloorCases [] Family = "auth" -> AuthCases [] Family = "blob" -> BlobCases [] Family = "sstore" -> SStoreCases [] Family = "seq" -> SeqCases [] Family = "call" -> CallCases [] OTHER -> TxCases
 
 MCInit == c \in Cases /\ m = TxStart(c.tx, c.accts)
 MCNext == Running(m) /\ m' = RunStep(m) /\ UNCHANGED c
